@@ -279,6 +279,10 @@ def r09_5(ctx: Ctx) -> None:
         it = cfg.by_ast[lp]
         ok = all(not cfg.reaches(q.node_for(f, n), q.node_for(f, r), avoid=[it]) for n in nones)
         ctx.check(ok, "R09.5", f, r, "filtered-out members never get an output", "a member that was registered None can still be given an output / directory in the same iteration")
+    for m in [c for c in q.calls(f) if attr_tail(c) == "mkdir" and isinstance(c.func.value, ast.Name) and q.enclosing_loops(f, c)]:
+        par = next((k.value for k in m.keywords if k.arg == "parents"), None)
+        ctx.check(isinstance(par, ast.Constant) and par.value is True, "R09.5", f, m, "selected directory members are created with their missing ancestors",
+                  "a selected directory member is created without parents=True: when its ancestors are not selected (and do not exist yet) extract() raises FileNotFoundError")
     es = ctx.prog.func("py7zr", "Worker._extract_single")
     mk = [c for c in q.calls(es) if attr_tail(c) == "mkdir"]
     for m in mk:
